@@ -991,3 +991,61 @@ func (c *Check) accumulatorsStartEmpty(rule string, fns ...string) {
 	}
 	c.floor(rule, n, 1, "append accumulators")
 }
+
+// attrErrData: the data of an attribute-based fallback NOTIFICATION is the
+// attribute's type code, its length (one octet, or two when the value is
+// longer than 255) and its value.
+func (c *Check) attrErrData(rule string) {
+	p := c.P
+	fn := p.Fn("notifDataForAttrBasedErr")
+	if fn == nil || !c.sig(rule, fn, 2) {
+		return
+	}
+	code, data := paramExpr(fn, 0), paramExpr(fn, 1)
+	for _, ext := range []bool{false, true} {
+		a := NewAnalysis(p, fn)
+		a.Init = func(a *Analysis, st *State) {
+			if ext {
+				st.rng[mkLen(data).Key] = isRange(256, 65535)
+			} else {
+				st.rng[mkLen(data).Key] = isRange(0, 255)
+			}
+		}
+		a.Run()
+		ok := len(a.Returns) > 0
+		detail := ""
+		for _, r := range a.Returns {
+			st := r.State
+			lay, lerr := st.layoutOf(r.Results[0], 0)
+			isLen := func(v *Expr) bool {
+				x := v
+				for x != nil && x.Op == "conv" {
+					x = x.Args[0]
+				}
+				d := st.linOf(x).add(st.linOf(mkLen(data)), -1)
+				k, isC := d.isConst()
+				return isC && k == 0
+			}
+			lenKind := "byte"
+			if ext {
+				lenKind = "be16"
+			}
+			pats := []segPat{
+				{Kind: "byte", Pred: func(v *Expr) bool { return v != nil && v.Key == code.Key }, What: "byte(type code)"},
+				{Kind: lenKind, Pred: isLen, What: lenKind + "(len(value))"},
+			}
+			// an empty value is not a segment
+			if z, isZ := st.rangeOf(mkLen(data)).IsConst(); !(isZ && z == 0) {
+				pats = append(pats, segPat{Kind: "bytes", Pred: func(v *Expr) bool { return v != nil && v.Key == data.Key }, What: "the value"})
+			}
+			if lerr != "" {
+				ok, detail = false, "construction not understood: "+lerr
+				continue
+			}
+			if good, d := matchLayout(lay, pats); !good {
+				ok, detail = false, d+" (layout "+layoutString(lay)+")"
+			}
+		}
+		c.require(ok, rule, "notifDataForAttrBasedErr", fmt.Sprintf("extended length=%v", ext), p.Pos(fn.Pos()), "data = type code, length, value — "+detail)
+	}
+}
